@@ -249,11 +249,11 @@ def run(tier, seed):
     explore.close_pool()
     total = 0
     classes = set()
-    for n, out, cl in res:
+    for t, (n, out, cl) in zip(tasks, res):
         total += n
         classes |= cl
         for k, det in out:
-            col.add(k, det, det)
+            col.add(k, dict(det, case=report.pack(det['msg'])) if 'msg' in det else det, det, task=t)
     n_new, n_known, summary = col.finish('c09-case')
     cov = {
         'evaluations': total, 'distinct_nontrivial': len(classes),
@@ -277,12 +277,15 @@ def replay(path):
     import json
     d = json.load(open(path))
     w = d['witness']
-    if 'msg' not in w:
+    if 'msg' not in w or 'asn4' not in w or '|session reported' in d['key']:
+        # error half / session half: the task that produced it is small; run it as a whole
         from yabgp.message.update import Update
-        body = bytes.fromhex(w['hex'])
-        for asn4 in (True, False):
-            print('asn4=%s ->' % asn4, budget.run(100000, Update.parse, None, body, asn4)[:2])
-        return 1
+        if 'hex' in w:
+            body = bytes.fromhex(w['hex'])
+            for asn4 in (True, False):
+                print('asn4=%s ->' % asn4, budget.run(100000, Update.parse, None, body, asn4)[:2])
+        rc = report.replay_in_task(d, _dispatch)
+        return rc
 
     def fix(x):
         if isinstance(x, dict):
@@ -290,19 +293,20 @@ def replay(path):
         if isinstance(x, list):
             return [fix(v) for v in x]
         return x
-    msg = fix(w['msg'])
+    msg = report.unpack(w['case']) if 'case' in w else fix(w['msg'])
     opts = dict(w.get('opts') or {})
     if 'ext_len' in opts:
         opts['ext_len'] = set(opts['ext_len'])
     ap = w.get('add_path')
     if isinstance(ap, list):
         ap = [tuple(x) for x in ap]
-    r1 = check(msg, w['asn4'], ap, opts or None)
-    r2 = check(msg, w['asn4'], ap, opts or None)
+    r1, r2 = report.twice(check, msg, w['asn4'], ap, opts or None)
     if repr(r1) != repr(r2):
         print('HARNESS-ERROR: replay is not deterministic')
         return 2
     print('input:', msg, 'asn4', w['asn4'], 'add_path', ap, 'opts', opts)
     print('result:', r1[0])
     print('detail:', json.dumps(r1[1], default=str)[:1500] if r1[1] else None)
-    return 1 if r1[0] and d['key'].endswith(r1[0]) else 0
+    if r1[0] and d['key'].endswith(r1[0]):
+        return 1
+    return report.replay_in_task(d, _dispatch)
